@@ -40,6 +40,7 @@ def run(ctx: Ctx):
     # ---- S2 as a table first: when the loss tail is inside the interpreted fragment, the table decides the sentinel agreement, the
     # average over the target set and the clamped divisors by value, and the shape-based clauses below are not consulted
     table_decided = _loss_tail_table(ctx, f, rel)
+    _validation_head_table(ctx, f, rel)
     # ---- S2 one sentinel: padding of the targets == ignore_index of cross_entropy == the padding mask constant ----
     ce = [c for c in own_calls(f.node) if call_name(c).endswith("cross_entropy")]
     okce = len(ce) == 1 and kwarg(ce[0], "ignore_index") is not None and u(kwarg(ce[0], "ignore_index")) == "ignore_index" \
@@ -175,6 +176,48 @@ def run(ctx: Ctx):
         not_decided=["targets are exactly the distance-preserving tokens", "duplicate collapsing", "loss values"],
         assumptions=["torch cross_entropy ignore_index semantics"],
     )
+
+
+def _validation_head_table(ctx: Ctx, f, rel: str):
+    """S2b: the loss exists for every include_eos setting: with include_eos=False the eos only delimits the sequences and need not be a
+    class; with include_eos=True it is a target and must be a class index different from ignore_index. The statements before the
+    target lists are computed (argument checks) are interpreted (sa/interp.py, exact values) for well-shaped inputs and
+    eos in {None, -1, 0, V - 1, V}, include_eos on / off, ignore_index in {-100, 0}: they must raise exactly when include_eos is set and
+    eos is given and (eos < 0 or eos >= V or eos == ignore_index)."""
+    import numpy as np
+    from sa.interp import Interp
+    from sa.inteval import NotEvaluable
+    from sa.teval import frac_array
+    col = ctx.col
+    where = f"{rel}::{f.qualname}"
+    body = f.node.body
+    start = next((i for i, st in enumerate(body) if any(isinstance(c, ast.Call) and call_name(c) == "optimal_completion" for c in ast.walk(st))), None)
+    if not start:
+        return
+    head = ast.FunctionDef(name="head", args=f.node.args, body=body[:start] + [ast.Return(value=ast.Constant(value=True))], decorator_list=[], lineno=f.node.lineno)
+    ast.fix_missing_locations(head)
+    V = 6
+    bad, n_rows = None, 0
+    try:
+        for eos in (None, -1, 0, V - 1, V):
+            for inc in (True, False):
+                for ig in (-100, 0):
+                    env = {a.arg: None for a in f.node.args.args}
+                    env.update(logits=frac_array(np.zeros((3, 2, V), dtype=int).tolist()), ref=frac_array(np.zeros((4, 2), dtype=int).tolist()),
+                               hyp=frac_array(np.zeros((3, 2), dtype=int).tolist()), eos=eos, include_eos=inc, batch_first=False, ignore_index=ig,
+                               reduction="mean", warn=False, ins_cost=1.0, del_cost=1.0, sub_cost=1.0)
+                    kind, got = Interp(tensors=True).run(head, env)
+                    n_rows += 1
+                    want = inc and eos is not None and (eos < 0 or eos >= V or eos == ig)
+                    if (kind == "raise") != want and bad is None:
+                        bad = (eos, inc, ig, kind)
+    except NotEvaluable:
+        return
+    col.floor("ocd_validation_rows", n_rows, 20)
+    col.ob("G12", "S2", f"{where}::validation-table", bad is None,
+           (f"with eos={bad[0]}, include_eos={bad[1]}, ignore_index={bad[2]} and {V} classes the argument checks {'raise' if bad[3] == 'raise' else 'pass'}; "
+            f"documented: refused exactly when include_eos is set and the eos is not a class index or equals ignore_index - with include_eos=False "
+            f"the eos only delimits the sequences and any value is legal, so the loss must exist") if bad else "", rel, f.line, sample=dict(rows=n_rows))
 
 
 def _loss_tail_table(ctx: Ctx, f, rel: str):
